@@ -205,6 +205,16 @@ func (s *Sess) UpdatePDR(req *ie.IE) ([]report.USAReport, error) {
 			}
 		}
 	}
+	for urrid := range newUrrids {
+		_, ok = pdrInfo.RelatedURRIDs[urrid]
+		if !ok {
+			// the PDR refers to this URR from now on
+			urrInfo, ok1 := s.URRIDs[urrid]
+			if ok1 {
+				urrInfo.refPdrNum++
+			}
+		}
+	}
 	pdrInfo.RelatedURRIDs = newUrrids
 
 	return usars, err
